@@ -105,6 +105,88 @@ static inline void actions(const std::string& id, const std::vector<long>& flat,
     }
 }
 
+
+// ---- right-hand sides that Fastor evaluates into a temporary first (requires_evaluation): P % Q, trans(C), P % Q + D,
+// and a product that reads the parent of the view itself.  St<T,Dims...> holds operands for a view of shape Dims... (rank 1 or 2)
+template<typename T> static inline T posval(uint32_t& s) { return (T)((int)(rnd(s) % 5) + 1); }
+template<typename T, size_t... Dims> struct St;
+template<typename T, size_t M> struct St<T,M> {
+    Tensor<T,M,2> P; Tensor<T,2> q; Tensor<T,M> D; Tensor<T,M,M> Bm; std::vector<T> e[4];
+    void init(uint32_t& s, const Tensor<T,M>& parent) {
+        for (size_t i = 0; i < 2 * M; ++i) P.data()[i] = posval<T>(s); for (size_t i = 0; i < 2; ++i) q.data()[i] = posval<T>(s);
+        for (size_t i = 0; i < M; ++i) D.data()[i] = posval<T>(s); for (size_t i = 0; i < M * M; ++i) Bm.data()[i] = posval<T>(s);
+        for (int k = 0; k < 4; ++k) e[k].assign(M, T(0));
+        for (size_t i = 0; i < M; ++i) {
+            T v = (T)(P.data()[2 * i] * q.data()[0]); v = (T)(v + P.data()[2 * i + 1] * q.data()[1]);
+            e[0][i] = v; e[1][i] = v; e[2][i] = (T)(v + D.data()[i]);
+            T w = T(0); for (size_t k = 0; k < M; ++k) w = (T)(w + Bm.data()[i * M + k] * parent.data()[k]); e[3][i] = w;
+        }
+    }
+    template<typename VW> void run(int op, int kind, VW&& vw, const Tensor<T,M>& parent) {
+        if (kind == 0 || kind == 1) { if (op == 0) vw = P % q; else if (op == 1) vw += P % q; else if (op == 2) vw -= P % q; else if (op == 3) vw *= P % q; else vw /= P % q; }
+        else if (kind == 2) { if (op == 0) vw = P % q + D; else if (op == 1) vw += P % q + D; else if (op == 2) vw -= P % q + D; else if (op == 3) vw *= P % q + D; else vw /= P % q + D; }
+        else { if (op == 0) vw = Bm % parent; else if (op == 1) vw += Bm % parent; else if (op == 2) vw -= Bm % parent; else if (op == 3) vw *= Bm % parent; else vw /= Bm % parent; }
+    }
+};
+template<typename T, size_t M, size_t N> struct St<T,M,N> {
+    Tensor<T,M,2> P; Tensor<T,2,N> Q; Tensor<T,N,M> C; Tensor<T,M,N> D; Tensor<T,N,N> Bm; std::vector<T> e[4];
+    void init(uint32_t& s, const Tensor<T,M,N>& parent) {
+        for (size_t i = 0; i < 2 * M; ++i) P.data()[i] = posval<T>(s); for (size_t i = 0; i < 2 * N; ++i) Q.data()[i] = posval<T>(s);
+        for (size_t i = 0; i < M * N; ++i) { C.data()[i] = posval<T>(s); D.data()[i] = posval<T>(s); } for (size_t i = 0; i < N * N; ++i) Bm.data()[i] = posval<T>(s);
+        for (int k = 0; k < 4; ++k) e[k].assign(M * N, T(0));
+        for (size_t i = 0; i < M; ++i) for (size_t j = 0; j < N; ++j) {
+            T v = (T)(P.data()[2 * i] * Q.data()[j]); v = (T)(v + P.data()[2 * i + 1] * Q.data()[N + j]);
+            e[0][i * N + j] = v; e[1][i * N + j] = C.data()[j * M + i]; e[2][i * N + j] = (T)(v + D.data()[i * N + j]);
+            T w = T(0); for (size_t k = 0; k < N; ++k) w = (T)(w + parent.data()[i * N + k] * Bm.data()[k * N + j]); e[3][i * N + j] = w;
+        }
+    }
+    template<typename VW> void run(int op, int kind, VW&& vw, const Tensor<T,M,N>& parent) {
+        if (kind == 0) { if (op == 0) vw = P % Q; else if (op == 1) vw += P % Q; else if (op == 2) vw -= P % Q; else if (op == 3) vw *= P % Q; else vw /= P % Q; }
+        else if (kind == 1) { if (op == 0) vw = trans(C); else if (op == 1) vw += trans(C); else if (op == 2) vw -= trans(C); else if (op == 3) vw *= trans(C); else vw /= trans(C); }
+        else if (kind == 2) { if (op == 0) vw = P % Q + D; else if (op == 1) vw += P % Q + D; else if (op == 2) vw -= P % Q + D; else if (op == 3) vw *= P % Q + D; else vw /= P % Q + D; }
+        else { if (op == 0) vw = parent % Bm; else if (op == 1) vw += parent % Bm; else if (op == 2) vw -= parent % Bm; else if (op == 3) vw *= parent % Bm; else vw /= parent % Bm; }
+    }
+};
+static const char* SKN[] = {"P%Q", "trans(C) (P%q for rank 1)", "P%Q+D", "parent%B (reads the parent of the view)"};
+
+// the evaluating overloads of the 1-D index view (instantiated for odd view lengths only, to bound compile time)
+template<typename T, typename Int, size_t N, size_t M>
+static inline void flat1_staged(std::false_type, uint32_t&, const std::vector<long>&, const Tensor<Int,M>&) {}
+template<typename T, typename Int, size_t N, size_t M>
+static inline void flat1_staged(std::true_type, uint32_t& s, const std::vector<long>& i0, const Tensor<Int,M>& it) {
+        // right-hand sides that are evaluated into a temporary first (the evaluating overload of each operator)
+        Guarded<T,Tensor<T,N>> A; A.init(s); for (size_t p = 0; p < N; ++p) if (A.t.data()[p] < T(0)) A.t.data()[p] = (T)(T(0) - A.t.data()[p]);
+        const Tensor<T,N> A0 = A.t;
+        Tensor<T,M> head; for (size_t p = 0; p < M; ++p) head.data()[p] = A0.data()[p];     // `Bm % head` stands for a product reading the parent
+        St<T,M> st; st.init(s, head);
+        for (int kind = 0; kind < 3; kind += 2) for (int op = 0; op < 5; ++op) {
+            A.t = A0; st.run(op, kind, A.t(it), head);
+            std::vector<long> who(N, -1); for (size_t j = 0; j < M; ++j) who[i0[j]] = j;
+            bool ok = true; std::string why;
+            for (size_t p = 0; p < N && ok; ++p) {
+                T want = who[p] < 0 ? A0.data()[p] : ap<T>(op, A0.data()[p], st.e[kind][who[p]]);
+                if (!same(A.t.data()[p], want)) { ok = false; why = (who[p] < 0 ? "unindexed position " : "indexed position ") + std::to_string(p); }
+            }
+            if (ok && !A.guards_ok()) { ok = false; why = "guard overwritten"; }
+            std::printf("rreal cfg=%s T=%s vea=%d k=flat1 c=%zu i0=%s write op=%s rhs=staged:%s | %s\n", CFGNAME, tn<T>::n(), RR_VEA, N, join(i0).c_str(), OPN[op], kind == 0 ? "P%q" : "P%q+D", ok ? "ok" : ("FAIL " + why).c_str());
+        }
+        {   // the staged right-hand side reads the parent of the view: the temporary must be complete before the first store
+            Tensor<T,M,N> BmN; for (size_t p = 0; p < M * N; ++p) BmN.data()[p] = posval<T>(s);
+            for (int op = 0; op < 5; op += 2) {
+                A.t = A0;
+                if (op == 0) A.t(it) = BmN % A.t; else if (op == 2) A.t(it) -= BmN % A.t; else A.t(it) /= BmN % A.t;
+                std::vector<long> who(N, -1); for (size_t j = 0; j < M; ++j) who[i0[j]] = j;
+                bool ok = true; std::string why;
+                for (size_t p = 0; p < N && ok; ++p) {
+                    T want = A0.data()[p];
+                    if (who[p] >= 0) { T w = T(0); for (size_t k = 0; k < N; ++k) w = (T)(w + BmN.data()[who[p] * N + k] * A0.data()[k]); want = ap<T>(op, A0.data()[p], w); }
+                    if (!same(A.t.data()[p], want)) { ok = false; why = "position " + std::to_string(p); }
+                }
+                std::printf("rreal cfg=%s T=%s vea=%d k=flat1 c=%zu i0=%s write op=%s rhs=staged:B%%parent | %s\n", CFGNAME, tn<T>::n(), RR_VEA, N, join(i0).c_str(), OPN[op], ok ? "ok" : ("FAIL " + why).c_str());
+            }
+        }
+}
+
 template<typename T, typename Int, size_t N, size_t M>
 static inline void flat1(unsigned seed, int count) {
     uint32_t s = seed * 2654435761u + 17;
@@ -112,6 +194,7 @@ static inline void flat1(unsigned seed, int count) {
         std::vector<long> i0 = indices(s, M, N, q % 3);
         Tensor<Int,M> it; for (size_t i = 0; i < M; ++i) it.data()[i] = (Int)i0[i];
         actions<T, Tensor<T,N>, Tensor<T,M>>("k=flat1 c=" + std::to_string(N) + " i0=" + join(i0), i0, s, [&](auto& A) { return A(it); });
+        if (dupfree(i0)) flat1_staged<T,Int,N,M>(std::integral_constant<bool,(M % 2 == 1)>(), s, i0, it);
     }
 }
 template<typename T, typename Int, size_t R, size_t C, size_t P, size_t Q>
@@ -175,6 +258,28 @@ static inline void fs(unsigned seed, int count) {
     }
 }
 
+// mask views with right-hand sides that are evaluated first (ranks 1 and 2; no product of rank 3 exists)
+template<typename T, typename PT, typename ST, typename FT>
+static inline void staged_mask(uint32_t& s, const std::string& ms, const FT& fl) {
+    const long PS = PT::size();
+    Guarded<T,PT> A; A.init(s); for (long p = 0; p < PS; ++p) if (A.t.data()[p] < T(0)) A.t.data()[p] = (T)(T(0) - A.t.data()[p]);
+    const PT A0 = A.t;
+    ST st; st.init(s, A0);
+    for (int kind = 0; kind < 4; ++kind) for (int op = 0; op < 5; ++op) {
+        A.t = A0; st.run(op, kind, A.t(fl), A.t);
+        bool ok = true; std::string why;
+        for (long p = 0; p < PS && ok; ++p) {
+            T want = ms[p] == '1' ? ap<T>(op, A0.data()[p], st.e[kind][p]) : A0.data()[p];
+            if (!same(A.t.data()[p], want)) { ok = false; why = (ms[p] == '1' ? "true position " : "false position ") + std::to_string(p); }
+        }
+        if (ok && !A.guards_ok()) { ok = false; why = "guard overwritten"; }
+        std::printf("rreal cfg=%s T=%s k=mask n=%ld mask=%s write op=%s rhs=staged:%s | %s\n", CFGNAME, tn<T>::n(), PS, ms.c_str(), OPN[op], SKN[kind], ok ? "ok" : ("FAIL " + why).c_str());
+    }
+}
+template<typename T, size_t... Dims> struct StagedMask { template<typename FT> static void go(uint32_t&, const std::string&, const FT&) {} };
+template<typename T, size_t M> struct StagedMask<T,M> { template<typename FT> static void go(uint32_t& s, const std::string& ms, const FT& fl) { staged_mask<T, Tensor<T,M>, St<T,M>>(s, ms, fl); } };
+template<typename T, size_t M, size_t N> struct StagedMask<T,M,N> { template<typename FT> static void go(uint32_t& s, const std::string& ms, const FT& fl) { staged_mask<T, Tensor<T,M,N>, St<T,M,N>>(s, ms, fl); } };
+
 // boolean-mask views
 template<typename T, size_t... Dims>
 static inline void filt(unsigned seed, int count) {
@@ -208,6 +313,7 @@ static inline void filt(unsigned seed, int count) {
             static const char* RN[] = {"scalar", "tensor", "expr"};
             line(std::string("write op=") + OPN[op] + " rhs=" + RN[rhs], ok, why);
         }
+        StagedMask<T,Dims...>::go(s, ms, fl);
         {   // reading a mask view: the element where the mask is true, zero elsewhere
             A.t = A0; B = A.t(fl);
             bool ok = true; std::string why;
